@@ -185,7 +185,6 @@ def gen_admissible(rng, tries=40, shear=False, history=True, **kw):
                     if admissible(q2, msgs2):
                         if shear and cfg.get('order') == 'r3' and not hasattr(q2, 'iota2'):
                             q2.calculate_shear()
-                        q2._verif_history = True
                         return cfg, q2
                 except Exception:
                     pass
